@@ -3,6 +3,8 @@ import DM.Model.Decode
 import DM.Model.Eci
 import DM.Spec.Eci
 import DM.Spec.Charsets
+import DM.Spec.Stream
+import DM.Model.Latin1
 namespace DM.Drv
 open DM.Model DM.Model.Dec
 
@@ -49,6 +51,34 @@ def decOp (args : List String) : Option String :=
     match r with
     | some cp => some s!"ok:{utf8Hex [cp]}"
     | none => some "err:CharsetError"
+  | ["l2u", b] =>
+    match latin1ToUtf8Str (unhex b) with
+    | some cps => some s!"ok:{utf8Hex cps}"
+    | none => some "none"
+  | ["u2l", u] =>
+    match utf8Decode (unhex u) with
+    | none => some "bad-utf8"
+    | some cps =>
+      match utf8ToLatin1Str cps with
+      | some bs => some s!"ok:{hex bs}"
+      | none => some "none"
+  | ["strchk", u, cw] =>
+    -- C14: printable ISO-8859-1 strings byte for byte without ECI; all others: ECI 26 + UTF-8 bytes
+    match utf8Decode (unhex u) with
+    | none => some "bad-utf8"
+    | some cps =>
+      match DM.Spec.Stream.decode (unhex cw) with
+      | .error e => some s!"fail:spec-decoder-rejects {e}"
+      | .ok d =>
+        let latin := cps.all fun c => (DM.Spec.Charsets.latin1 c).isSome
+        if latin then
+          if d.ecis ≠ [] then some "fail:eci-used-for-latin1-string"
+          else if d.bytes ≠ cps then some s!"fail:latin1-bytes {hex d.bytes}"
+          else some "ok"
+        else
+          if d.ecis ≠ [(0, 26)] then some s!"fail:eci-designator {d.ecis}"
+          else if d.bytes ≠ unhex u then some s!"fail:utf8-bytes {hex d.bytes}"
+          else some "ok"
   | _ => none
 
 end DM.Drv
